@@ -117,7 +117,22 @@ func (h *g7Inherit) exception(tbl map[string]string, fn *ssa.Function, kind, con
 	if w := tbl[key]; w != "" {
 		return key, w
 	}
-	if len(tbl) == 0 || fn.Parent() != nil {
+	if len(tbl) == 0 {
+		return key, ""
+	}
+	if fn.Parent() != nil {
+		// ip_h2.go: a local closure that only runs where it was made, and a construct over parameters
+		// of the enclosing function that are never reassigned: the construct of that function
+		root, e := h.h2ClosureSite(fn, pos)
+		if root == nil {
+			return key, ""
+		}
+		for owner, text := range h.ownersOf(root, e, 0) {
+			k := owner + "|" + kind + " " + text
+			if w := tbl[k]; w != "" {
+				return k, w + " (the construct sits in a local closure of " + fnName(root) + " that is only called in place)"
+			}
+		}
 		return key, ""
 	}
 	e := h.c.g7ExprNodeAt(fn, pos)
@@ -623,6 +638,13 @@ func (c *Ctx) g7BoundTo(v, target ssa.Value, depth int) bool {
 	if v == target {
 		return true
 	}
+	// ip_h2.go: a parameter read back from the variable it was spilled to (a closure captures it)
+	if pv := h2ParamValue(v); pv != nil {
+		if ssa.Value(pv) == target {
+			return true
+		}
+		v = pv
+	}
 	par, ok := v.(*ssa.Parameter)
 	if !ok || depth > g7MaxDepth {
 		return false
@@ -737,6 +759,17 @@ func (a *g7Percall) web(fn *ssa.Function, seeds map[ssa.Value]bool, starts []ssa
 					viaHelper(v, call, x.Index)
 				}
 			}
+		case *ssa.UnOp:
+			// ip_h2.go: the counter lives in a variable (a closure captures it): every load of the
+			// variable is a counter value, everything stored into it belongs to its computation
+			if loads, stores, ok := h2CounterVar(x); ok {
+				for _, ld := range loads {
+					web[ld] = true
+				}
+				for _, st := range stores {
+					add(st.Val)
+				}
+			}
 		case *ssa.Call:
 			if callName(&x.Call) == "builtin.copy" {
 				web[v] = true // a bulk transfer counts as many bytes as this call happened to be given
@@ -811,8 +844,9 @@ func (a *g7Percall) leak(fn *ssa.Function, buf ssa.Value, web map[ssa.Value]bool
 	}
 	isLenBuf := func(v ssa.Value) bool {
 		call, ok := v.(*ssa.Call)
-		return ok && buf != nil && callName(&call.Call) == "builtin.len" && call.Call.Args[0] == buf
+		return ok && buf != nil && callName(&call.Call) == "builtin.len" && h2IsBuf(call.Call.Args[0], buf)
 	}
+	slots := h2CounterSlots(web) // ip_h2.go: variables that carry the counter
 	nUses := 0
 	var work []ssa.Value
 	for v := range web {
@@ -856,11 +890,11 @@ func (a *g7Percall) leak(fn *ssa.Function, buf ssa.Value, web map[ssa.Value]bool
 					}
 				}
 			case *ssa.IndexAddr:
-				if buf != nil && x.X == buf && x.Index == v {
+				if h2IsBuf(x.X, buf) && x.Index == v {
 					continue
 				}
 			case *ssa.Slice:
-				if buf != nil && x.X == buf {
+				if h2IsBuf(x.X, buf) {
 					continue
 				}
 			case *ssa.Return, *ssa.DebugRef:
@@ -869,6 +903,10 @@ func (a *g7Percall) leak(fn *ssa.Function, buf ssa.Value, web map[ssa.Value]bool
 				// spilling a named result to its own slot
 				if x.Val == v {
 					if al, ok := x.Addr.(*ssa.Alloc); ok && named[al.Comment] {
+						continue
+					}
+					// assigning the variable that carries the counter (in a closure: through its reference)
+					if al := g9SlotOf(x.Addr); al != nil && slots[al] {
 						continue
 					}
 				}
@@ -960,49 +998,8 @@ func (a *g7Percall) leak(fn *ssa.Function, buf ssa.Value, web map[ssa.Value]bool
 
 // ---- C06-holdback ---------------------------------------------------------------------------------
 
-// g7HoldbackSplit: somewhere in Read or in a helper it reaches, a byte is appended to the hold-back
-// buffer of Read's receiver on the false edge of `n < len(P)` whose true edge stores the same byte at
-// P[n], where P is Read's buffer p (the parameter itself, or a helper parameter that receives p at
-// every call site of the helper).
-func (c *Ctx) g7HoldbackSplit(read *ssa.Function) (bool, string) {
-	p, recv := ssa.Value(read.Params[1]), ssa.Value(read.Params[0])
-	for _, fn := range g7Closure(read) {
-		for _, wb := range callsTo(fn, false, "bytes.Buffer.WriteByte") {
-			if _, plain := wb.(*ssa.Call); !plain {
-				continue
-			}
-			args := wb.Common().Args
-			if !strings.HasSuffix(pathOf(args[0]), ".state.buf") || !c.g7BoundTo(g7Root(args[0]), recv, 0) {
-				continue
-			}
-			for _, cd := range condsAt(wb.Block()) {
-				b, ok := cd.V.(*ssa.BinOp)
-				if !ok || b.Op != token.LSS || cd.Truth {
-					continue
-				}
-				call, isLen := b.Y.(*ssa.Call)
-				if !isLen || callName(&call.Call) != "builtin.len" || !c.g7BoundTo(call.Call.Args[0], p, 0) {
-					continue
-				}
-				P := call.Call.Args[0]
-				for _, in := range cd.If.Block().Succs[0].Instrs {
-					st, ok := in.(*ssa.Store)
-					if !ok {
-						continue
-					}
-					if ia, ok := st.Addr.(*ssa.IndexAddr); ok && ia.X == P && ia.Index == b.X && pathOf(st.Val) == pathOf(args[1]) {
-						where := ""
-						if fn != read {
-							where = " (in " + fnName(fn) + ", which receives Read's buffer at every call)"
-						}
-						return true, where
-					}
-				}
-			}
-		}
-	}
-	return false, ""
-}
+// (g7HoldbackSplit, the search for the split in Read and its static helpers, was generalised into
+// h2HoldbackSplit in ip_h2.go: either spelling of the test, local closures, spilled parameters.)
 
 // ---- C08-bounded ----------------------------------------------------------------------------------
 
@@ -1769,7 +1766,8 @@ func (a *g7Verdict) factsAt(b *ssa.BasicBlock, fr *ipFrame, top bool, depth int)
 		}
 		out = next
 	}
-	return out
+	// ip_h2.go: what the ways into a join on b's dominator chain say (`if (A && B) || C { return err }`)
+	return a.h2JoinFacts(out, b, fr, top, depth)
 }
 
 // g7Contains: every literal of d occurs in alt.
